@@ -136,6 +136,11 @@ fn key_bytes(version: u32, key: u8, long_key: u8) -> Vec<u8> {
 
 /// Build a legacy image from the item list with the independent codec.
 pub fn build_synth(version: u32, items: &[Item], journal_items: &[u8], plain_meta: bool) -> Vec<u8> {
+    build_synth_ts(version, items, journal_items, plain_meta, 1000)
+}
+
+/// As `build_synth`, with generation timestamps `ts_base + rank * 7`.
+pub fn build_synth_ts(version: u32, items: &[Item], journal_items: &[u8], plain_meta: bool, ts_base: u64) -> Vec<u8> {
     // size the device to fit
     let mut need = 16u64;
     for it in items {
@@ -161,7 +166,7 @@ pub fn build_synth(version: u32, items: &[Item], journal_items: &[u8], plain_met
                 let vl = value_len(version, k.len(), *vlen, *nb);
                 let mut v = vec![0u8; vl];
                 crate::seq::stamp_fill(&mut v, *key as u16, i as u32);
-                let ts = 1000 + *rank as u64 * 7;
+                let ts = ts_base + *rank as u64 * 7;
                 let ex = match expiry {
                     0 => 0,
                     1 => NOW - 5_000_000_000, // expired
